@@ -17,7 +17,7 @@ import re as _re
 def _norm(text):
     """results are compared as text; unique ids of freshly created symbols
     (Sym repr `name_<id>`) and object addresses differ between the two runs"""
-    text = _re.sub(r"_(\d{3,})\b", "_#", text)
+    text = _re.sub(r"_(\d+)\b", "_#", text)
     return _re.sub(r"0x[0-9a-f]+", "0x#", text)
 
 
